@@ -372,6 +372,14 @@ func (i *interpreter) symBinop(op token.Token, x, y value) value {
 
 func (i *interpreter) symStrBinop(op token.Token, x, y value) value {
 	if op == token.ADD {
+		ex, okx := strElems(x)
+		ey, oky := strElems(y)
+		if okx && oky {
+			st := i.newSymStr("concat")
+			st.kind = "bytes"
+			st.bytes = append(append([]value{}, ex...), ey...)
+			return st
+		}
 		return i.newSymStr("concat")
 	}
 	if op == token.EQL || op == token.NEQ {
@@ -616,4 +624,34 @@ func (i *interpreter) concretize(v value, lo, hi int64, site string) int64 {
 	}
 	i.assume(i.tc.Eq(s.t, i.tc.ConstI(hi)), site)
 	return hi
+}
+
+// strElems returns the byte-like elements of a string value (concrete bytes and opaque runs).
+func strElems(v value) ([]value, bool) {
+	switch s := v.(type) {
+	case string:
+		r := make([]value, len(s))
+		for k := 0; k < len(s); k++ {
+			r[k] = s[k]
+		}
+		return r, true
+	case symStr:
+		switch s.kind {
+		case "int":
+			return []value{opaqueRun{"intstr", s.t}}, true
+		case "bytes":
+			return s.bytes, true
+		}
+	}
+	return nil, false
+}
+
+func (i *interpreter) strFromElems(e []value) value {
+	if !hasAbstract(e) {
+		return string(valueToBytes(e))
+	}
+	st := i.newSymStr("text")
+	st.kind = "bytes"
+	st.bytes = append([]value{}, e...)
+	return st
 }
